@@ -36,4 +36,6 @@ class EqValue(GenericValue):
         return self._file._value_to_code(self._new_value)
 
     def _get_changes(self) -> Iterator[Change]:
-        return iter(self._changes)
+        # _changes is not defined if the snapshot was only compared
+        # inside of another snapshot (see compare_only())
+        return iter(getattr(self, "_changes", []))
